@@ -154,10 +154,20 @@ struct V {
 
   void gridLong(Rng &g) {
     // a long valid sequence with one defect at a chosen position
-    const size_t n = (size_t)g.range(3, 40);
+    // mostly 3..40 points; one in four much longer, with the defect at or
+    // next to a power-of-two position
+    const bool lng = g.chance(1, 4);
+    const size_t n = lng ? (size_t)g.range(60, 1100) : (size_t)g.range(3, 40);
     std::vector<T> v;
     for (size_t i = 0; i < n; i++) v.push_back(mk<T>((long)i * 3 - 20, 4));
-    const size_t pos = g.below(n);
+    size_t pos = g.below(n);
+    if (lng) {
+      static const size_t marks[] = {63, 64, 65, 127, 128, 129, 255, 256, 257,
+                                     511, 512, 513, 767, 768, 1023, 1024, 1025};
+      const size_t m = marks[g.below(17)];
+      if (m < n) pos = m;
+      c.count("grid-long:over-60-points");
+    }
     const int defect = (int)g.below(ST<T>::exact ? 3 : 5);
     const char *dn = "";
     switch (defect) {
@@ -378,6 +388,48 @@ struct V {
     }
   }
 
+  // collections in which every member is interval-free are valid input
+  void lincombAllEmpty(Rng &g) {
+    const Grid<T> grid = mkGrid<T>(Access(5));
+    for (size_t k = 1; k <= 3; k++) {
+      std::vector<Spline<T, 2>> ss;
+      std::vector<T> cs;
+      std::string kinds;
+      for (size_t i = 0; i < k; i++) {
+        switch (g.below(3)) {
+          case 0:
+            ss.emplace_back(grid);
+            kinds += "empty ";
+            break;
+          case 1: {
+            Spline<T, 2> tmp(Support<T>(grid, 0, 3), {{mk<T>(1), mk<T>(0), mk<T>(2)},
+                                                      {mk<T>(0), mk<T>(1), mk<T>(0)}});
+            Spline<T, 2> taken(std::move(tmp));
+            ss.push_back(std::move(tmp));  // moved-from
+            kinds += "moved-from ";
+            break;
+          }
+          default: {
+            // product of two splines without a common interval
+            Spline<T, 1> l(Support<T>(grid, 0, 2), {{mk<T>(1), mk<T>(1)}});
+            Spline<T, 1> r(Support<T>(grid, 3, 5), {{mk<T>(2), mk<T>(1)}});
+            ss.push_back(l * r);
+            kinds += "disjoint-product ";
+          }
+        }
+        cs.push_back(mk<T>((long)i + 2));
+      }
+      std::string msg;
+      bool zero = false;
+      judge("linear-combination-all-interval-free", true, attempt([&] {
+              auto r = bspline::linearCombination(cs, ss);
+              zero = r.isZero() && !r.getSupport().containsIntervals();
+            }, &msg), "linearCombination over [" + kinds + "]", msg);
+      if (msg.empty() && !zero)
+        c.violation("C11", "linear-combination-all-interval-free/not-zero", kinds);
+    }
+  }
+
   void lincomb() {
     {
       std::string msg;
@@ -513,6 +565,7 @@ void runCase(Ctx &c) {
       break;
     case 5:
       v.lincomb();
+      v.lincombAllEmpty(g);
       v.gridForeignIterators(g);
       break;
     case 6:
